@@ -1,7 +1,9 @@
 """C19 Interrupted writes never leave a partial file under a final name."""
+import json
 import os
 
 import vlib
+from checks import sysfs
 
 TRACE_CFG = """SPECIFICATION TraceSpec
 CONSTANTS
@@ -40,7 +42,33 @@ def check(ctx):
     missing = [p for p in need if points.get(p, 0) == 0]
     if missing:
         raise vlib.ToolError("vacuity: crash points never reached: %s" % missing)
+    # system-call level: kill a fresh run just before every modifying system call (independent of the hooks)
+    sysw = vlib.workdir("c19sys")
+    lines, tot, ops = ['{"ev":"AfSetup"}'], {"events": 0, "kills": 0, "unrealised": 0, "operations": 0}, {}
+    for proto in ("shard_flush", "consolidate", "local_put", "cache_put"):
+        for sd in range(ctx.seed, ctx.seed + (16 if thorough else 4)):
+            ev, st = sysfs.explore(sysw, proto, sd, "s")
+            lines += ev + ['{"ev":"reset"}']
+            tot["operations"] += 1
+            for k in ("events", "kills", "unrealised"):
+                tot[k] += st[k]
+            for l in ev:
+                v = json.loads(l)
+                if v["ev"] == "AfSys":
+                    ops[v["op"]] = ops.get(v["op"], 0) + 1
+    t = os.path.join(sysw, "sys.ndjson")
+    open(t, "w").write("\n".join(lines) + "\n")
+    ctx.sample({"syscall_level_trace_prefix": [json.loads(l) for l in lines[1:6]]})
+    validate(ctx, t, "syscall-kills")
+    ctx.notes["syscall_level"] = dict(tot, ops=ops)
+    for need_op in ("openw", "write", "rename", "unlink"):
+        if ops.get(need_op, 0) == 0:
+            raise vlib.ToolError("vacuity: no %s system call observed" % need_op)
+    if tot["kills"] == 0 or tot["unrealised"] * 5 > tot["events"]:
+        raise vlib.ToolError("vacuity: kill runs not realised: %s" % tot)
     ctx.assumptions += [
+        "system-call level: the operation is deterministic up to temporary names, so the n-th call of a fresh run is the call recorded; every kill run is checked to have died on entry of the same abstract call (others are counted as unrealised); only calls of the operation's own thread inside the watched directory are projected (no mmap writes there)",
+
         "process-crash model: the directory is copied at every crash point (hook between two file-system effects); a crash while the temporary file is being written is emulated by truncating it to prefix lengths 0, 1, half, len-1",
         "consistency of a final-named file with its name is decided by the component's own validators (shard: content hash = name and it parses; xorb: validate_cas_object for the name's hash; cache item: length and crc32 of the name)",
         "cache_put gives up subsumed and evicted items by design; everything else retrievable before must be retrievable after the re-open",
